@@ -2689,6 +2689,8 @@ GRwriteimage(int32 riid, int32 start[2], int32 in_stride[2], int32 count[2], voi
 
     if (ri_ptr->img_tag == DFTAG_NULL || ri_ptr->img_ref == DFREF_WILDCARD)
         new_image = TRUE;
+    else if (ri_ptr->data_modified == TRUE) /* written in this session: the data may still be in the buffer */
+        new_image = FALSE;                  /* of a compressed element, where Hlength does not see them */
     else {
         /* Check if the actual image data is in the file yet, or if just the tag & ref are known */
         if (Hlength(ri_ptr->gr_ptr->hdf_file_id, ri_ptr->img_tag, ri_ptr->img_ref) > 0)
@@ -3090,6 +3092,8 @@ GRreadimage(int32 riid, int32 start[2], int32 in_stride[2], int32 count[2], void
     /* Check if the image data is in the file */
     if (ri_ptr->img_tag == DFTAG_NULL || ri_ptr->img_ref == DFREF_WILDCARD)
         image_data = FALSE;
+    else if (ri_ptr->data_modified == TRUE) /* written in this session (see GRwriteimage) */
+        image_data = TRUE;
     else {
         /* Check if the actual image data is in the file yet, or if just the
            tag & ref are known */
